@@ -220,6 +220,22 @@ def r10a(repo, chk):
                 chk.judge("R10.a", key, ok, "subscript outside any catch-all try may raise IndexError/KeyError", None, where)
             elif isinstance(c, ast.Raise):
                 chk.bad("R10.a", f"compiler:compile_code:raise {norm(c)[:50]}", "compile_code raises", None, where)
+            elif isinstance(c, ast.Assign) and len(c.targets) == 1 and isinstance(c.targets[0], (ast.Tuple, ast.List)) and isinstance(c.value, ast.Call) \
+                    and isinstance(c.value.func, ast.Attribute) and c.value.func.attr in ("split", "rsplit", "partition", "rpartition"):
+                # a, b = X.split(sep): the number of parts must be fixed
+                k = len(c.targets[0].elts)
+                v = c.value
+                key = f"compiler:compile_code:unpack {norm(c)[:70]}"
+                if v.func.attr in ("partition", "rpartition"):
+                    chk.judge("R10.a", key, k == 3, f"{v.func.attr} yields three parts, {k} names are bound", None, where)
+                else:
+                    maxsplit = v.args[1].value if len(v.args) > 1 and isinstance(v.args[1], ast.Constant) else None
+                    sep = v.args[0].value if v.args and isinstance(v.args[0], ast.Constant) else None
+                    gs = [(t_, p_) for t_, p_ in cfg.guards(n.id) if isinstance(t_, ast.expr)]
+                    ok_ = maxsplit == k - 1 and k == 2 and isinstance(sep, str) and _occurs(sep, _resolve_local(v.func.value, cfg, n.id), gs)
+                    chk.judge("R10.a", key, ok_,
+                              f"'{norm(c)[:60]}' binds {k} names to the result of split" + (" without a limit on the number of parts" if maxsplit is None else f" limited to {maxsplit + 1} parts")
+                              + ": a text with another number of separators raises ValueError outside any handler, compile_code does not return a verdict", None, where)
     if unknown and not chk.findings:
         raise AnalysisError(f"compile_code calls {sorted(set(unknown))} outside any catch-all try: not in the table of total / partial functions, cannot be classified")
     # Compiler.compile containment
